@@ -81,10 +81,13 @@ def b32(v):
     return int(v).to_bytes(32, "big")
 
 
-def resolve(t, cur):
+def resolve(t, cur, xpt=None):
     """symbolic tweak -> integer in [0, 2^256), relative to the key `cur` the operation acts on"""
     if isinstance(t, int):
         return t
+    if isinstance(t, list):             # ["tap", merkle_root_hex]: BIP-341 TapTweak of the internal key (x-only operations), else a plain hash
+        root = bytes.fromhex(t[1])
+        return K.taproot_tweak(xpt, root) if xpt is not None else ec.b2i(ec.tagged_hash("TapTweak", b32(cur) + root))
     if t == "neg_cur":
         return N - cur
     if t == "neg_cur_p1":
@@ -103,7 +106,8 @@ def resolve(t, cur):
 
 SYMBOLIC = ["neg_cur", "neg_cur", "neg_cur_p1", "neg_cur_m1", "neg_cur_plus_n", "inv_cur", "neg_inv_cur", "n", "n", "n_p1", "n_m1", "max", "zero",
             "zero", "one", "two", "half"]
-tweak_st = st.one_of(st.sampled_from(SYMBOLIC), gens.u256_edge, gens.seckey_valid, st.integers(0, M256))
+tweak_st = st.one_of(st.sampled_from(SYMBOLIC), gens.u256_edge, gens.seckey_valid, st.integers(0, M256),
+                     st.sampled_from(["", "00" * 32, "ab" * 32]).map(lambda r: ["tap", r]))
 INVALID_KEYS = ["zero", "n", "n_p1", "max"]
 
 _op = st.one_of(
@@ -222,9 +226,11 @@ def run_history(env, case):
             pt = ec.mulg(sk)
             xpt, par = K.xonly_from_point(pt)
             dsk = N - sk if par else sk
-            t = resolve(op["t"], dsk)
+            t = resolve(op["t"], dsk, xpt)
             tb = b32(t)
             classes.add("parity:%d" % par)
+            if isinstance(op["t"], list):
+                classes.add("taptweak")
             # public side
             xo, lpar = api.xonly_of(pk)
             env.require(lpar == par, "xonly_pubkey_from_pubkey parity %d, model %d" % (lpar, par))
@@ -279,7 +285,7 @@ def run_history(env, case):
             pt = ec.mulg(sk)
             xpt, par = K.xonly_from_point(pt)
             dsk = N - sk if par else sk
-            t = resolve(op["t"], dsk)
+            t = resolve(op["t"], dsk, xpt)
             tb = b32(t)
             classes.add("parity:%d" % par)
             rk, kp = lib.keypair_create(skb)
@@ -433,6 +439,24 @@ def run_combine(env, case):
         classes.append("sum_ok")
     if through_inf:
         classes.append("prefix_infinity")
+    ks = [kgens.scalar_of(case["pool"][abs(i) - 1]) for i in case["order"]]
+    if all(k is not None for k in ks) and n <= 64:
+        ks = [k if i > 0 else N - k for k, i in zip(ks, case["order"])]
+        tot = sum(ks) % N
+        env.require((ec.mulg(tot) if tot else None) == exp, "reference inconsistency: sum of points != (sum of scalars)*G")
+        pre = 0
+        clean = True
+        for k in ks:
+            pre = (pre + k) % N
+            clean = clean and pre != 0
+        if clean:
+            sec = buf(32, b32(ks[0]))
+            for k in ks[1:]:
+                env.require(d.secp256k1_ec_seckey_tweak_add(ctx, sec, b32(k)) == 1, "ec_seckey_tweak_add failed while summing secret keys with non-zero partial sums")
+            env.require(sec.raw[:32] == b32(tot), "sum of the secret keys through ec_seckey_tweak_add differs from the model")
+            rc, pkc = lib.pubkey_create(sec.raw[:32])
+            env.require(rc == 1 and api.ser(pkc) == api.ser(out), "pubkey_create(sum of secret keys) != ec_pubkey_combine(public keys)")
+            classes.append("secret_sum_checked")
     sers = [ec.ser33(p) for p in pts]
     xs = [p[0] for p in pts]
     dup = len(set(sers)) < n
@@ -466,7 +490,8 @@ def sort_case(draw):
         if draw(st.integers(0, 9)) == 0:
             pool.append(s)                                # equal key in a distinct object
     pool = pool[:64]
-    n = draw(st.one_of(st.integers(0, 3), st.integers(2, 12), st.integers(5, 40), st.integers(41, 200), st.sampled_from([40, 41, 42, 64, 100, 128, 199, 200])))
+    n = draw(st.one_of(st.sampled_from([0, 1, 2, 3, 2, 3]), st.integers(2, 12), st.integers(5, 40), st.integers(41, 200), st.integers(41, 200),
+                       st.sampled_from([40, 41, 42, 64, 100, 128, 199, 200])))
     kind = draw(st.sampled_from(["random", "random", "random", "sorted", "reversed", "all_equal", "two_values"]))
     idx = st.integers(0, len(pool) - 1)
     if kind == "all_equal":
@@ -540,14 +565,14 @@ def run_sort(env, case):
 
 
 TESTS = [
-    Test("history", history_case, run_history, quick=3000, thorough=90000,
+    Test("history", history_case, run_history, quick=3000, thorough=90000, max_workers=8,
          must_cover=["fail:tweak_add:result0", "fail:tweak_add:t>=n", "fail:tweak_mul:zero", "fail:tweak_mul:t>=n", "fail:xonly_tweak_add:result0",
                      "fail:xonly_tweak_add:t>=n", "fail:keypair_xonly_tweak_add:result0", "fail:keypair_xonly_tweak_add:t>=n", "fail:keypair_result0_odd",
                      "xonly_ok_par1", "keypair_ok_par1", "keypair_ok_par0", "invalid_key:zero", "invalid_key:n", "check:flip_parity:0",
-                     "check:other_tweak:0", "result_pm1", "op:negate", "op:to_xonly", "op:keypair_create"]),
-    Test("combine", combine_case, run_combine, quick=1500, thorough=50000,
-         must_cover=["sum_infinity", "sum_ok", "prefix_infinity", "duplicate", "cancelling_pair", "n:41-200", "n:1"]),
-    Test("sort", sort_case, run_sort, quick=1500, thorough=50000,
+                     "check:other_tweak:0", "result_pm1", "op:negate", "op:to_xonly", "op:keypair_create", "taptweak"]),
+    Test("combine", combine_case, run_combine, quick=1500, thorough=50000, max_workers=4,
+         must_cover=["sum_infinity", "sum_ok", "prefix_infinity", "duplicate", "cancelling_pair", "n:41-200", "n:1", "secret_sum_checked"]),
+    Test("sort", sort_case, run_sort, quick=1500, thorough=50000, max_workers=4,
          must_cover=["n:41-200", "n:0", "n:1", "duplicate", "aliased_pointer", "equal_in_distinct_objects", "P_and_minus_P", "cmp:0", "cmp:1", "cmp:-1",
                      "cmp:same_x", "cmp:shared_prefix", "reordered"]),
 ]
